@@ -465,7 +465,7 @@ func TestC09(t *testing.T) {
 	}
 	debug.SetGCPercent(400)
 	mut.Full = ev.Thorough()
-	ev.Rule("(a) field matrix: every length/count/offset/dimension/type field in the field map of every seed (repository images and profile, grammar-built files incl. multi-record mluc, hostile mini-files; ICC fields of embedded profiles included) x ~40 hostile values (0,1,2,7,8,9,11,12,13,127,128,255,256,65535,65536,2^24-1,2^24,2^31-1,2^31,2^32-1, field+-1, field+-12, remaining length +-1, values making offset+size wrap 2^32), singly and in rapid-chosen pairs; (b) rapid structure-aware mutation (1-4 operators: set-field, truncate, duplicate/drop/swap chunk, splice two files, flip bits, change a type tag) of generated valid files and seeds; (a4) v2 textDescription tags built field by field (ASCII count x Unicode count incl. counts whose doubling wraps 2^32 x units present x ScriptCode count); (a5) payloads that are not profiles but resemble something the library knows (the marker of another container's profile segment, a bare header, another image file, a zlib stream, runs of 0xFF / zeros), cut at every length and embedded in every container; (c) every truncation of every seed <= 8 KiB (quick, seeds > 2500 bytes: structure boundaries +-2 and every fifth position); (d) amplifier inputs (maximal-ratio deflate, many tags, many mluc records, 255 JPEG chunks). Entry chain per input: Load -> ICCProfile -> ICCProfileData -> ICCProfile again -> Description twice (or ReadProfile -> Description twice). Oracle: no escaping panic, never (nil metadata, nil error) nor a nil stream from Load, TotalAlloc delta <= 1 MiB + B*len(input), return within 1 s + 1 s/MiB (exceeded three times in a row; the slowest conforming call observed uses about 1-5 % of it). non-trivial = distinct mutated input whose signature is still accepted by the targeted entry point")
+	ev.Rule("(a) field matrix: every length/count/offset/dimension/type field in the field map of every seed (repository images and profile, grammar-built files incl. multi-record mluc, hostile mini-files; ICC fields of embedded profiles included) x ~40 hostile values (0,1,2,7,8,9,11,12,13,127,128,255,256,65535,65536,2^24-1,2^24,2^31-1,2^31,2^32-1, field+-1, field+-12, remaining length +-1, values making offset+size wrap 2^32), singly and in rapid-chosen pairs; (b) rapid structure-aware mutation (1-4 operators: set-field, truncate, duplicate/drop/swap chunk, splice two files, flip bits, change a type tag) of generated valid files and seeds; (a4) v2 textDescription tags built field by field (ASCII count x Unicode count incl. counts whose doubling wraps 2^32 x units present x ScriptCode count); (a5) payloads that are not profiles but resemble something the library knows (the marker of another container's profile segment, a bare header, another image file, a zlib stream, runs of 0xFF / zeros), cut at every length and embedded in every container; (a6) 300 valid profiles with distinct IDs, versions and descriptions through the whole chain in one process; (c) every truncation of every seed <= 8 KiB (quick, seeds > 2500 bytes: structure boundaries +-2 and every fifth position); (d) amplifier inputs (maximal-ratio deflate, many tags, many mluc records, 255 JPEG chunks). Entry chain per input: Load -> ICCProfile -> ICCProfileData -> ICCProfile again -> Description twice (or ReadProfile -> Description twice). Oracle: no escaping panic, never (nil metadata, nil error) nor a nil stream from Load, TotalAlloc delta <= 1 MiB + B*len(input), return within 1 s + 1 s/MiB (exceeded three times in a row; the slowest conforming call observed uses about 1-5 % of it). non-trivial = distinct mutated input whose signature is still accepted by the targeted entry point")
 	ev.Set("alloc_bound", map[string]any{"A_bytes": boundA, "B_per_input_byte": boundB})
 	ev.Assume("allocation is observed as the runtime.MemStats.TotalAlloc delta around the call (process-wide; a violation is re-measured once); absence over all byte strings is not established")
 	rc := &recorder{bad: map[string]bool{}}
@@ -660,6 +660,33 @@ func TestC09(t *testing.T) {
 	}
 	ev.Class("confusable-payloads", nConf)
 	phase("confusable-payloads")
+	// (a6) many DIFFERENT valid profiles in one process: 300 profiles with distinct IDs, versions, descriptions (v2 and
+	// multi-localised) and sizes through the whole accessor chain, bare and embedded - whatever the accessors keep
+	// between calls (caches, rings, pools) is filled past any plausible size
+	var nMany int64
+	for i := 0; i < 300; i++ {
+		desc := build.TextDesc(fmt.Sprintf("distinct profile %d %s", i, strings.Repeat("x", i%40)))
+		if i%2 == 1 {
+			desc = build.Mluc([]build.MlucRec{{Lang: [2]byte{'e', 'n'}, Country: [2]byte{'U', 'S'}, Text: fmt.Sprintf("Distinct %d", i)}, {Lang: [2]byte{'j', 'a'}, Country: [2]byte{'J', 'P'}, Text: strings.Repeat("色", 1+i%9)}}, nil, nil, i%3)
+		}
+		prof := build.SimpleProfile(desc, (i%7)*33)
+		copy(prof[8:12], [][]byte{{2, 0x10, 0, 0}, {2, 0x40, 0, 0}, {4, 0, 0, 0}, {4, 0x30, 0, 0}, {4, 0x40, 0, 0}}[i%5])
+		for k := 84; k < 100; k++ {
+			prof[k] = byte(i*7 + k*13 + 1) // a profile ID of its own
+		}
+		files := map[string][]byte{"icc": prof}
+		files["png"], _ = build.PNG{W: 3, H: 2, Depth: 8, ColorType: 2, Pre: []build.Chunk{build.ICCPChunk("p", prof, 6)}, IDAT: []byte{1}}.Bytes()
+		files["webp"], _ = build.WebP{Chunks: []build.RIFFChunk{{FourCC: "VP8X", Data: build.VP8XHeader(0x20, 2, 1)}, {FourCC: "ICCP", Data: prof}, {FourCC: "VP8L", Data: build.VP8LHeader(2, 1, false)}}}.Bytes()
+		target := []string{"icc", "png", "webp", "auto"}[i%4]
+		f := files[target]
+		if target == "auto" {
+			f = files["png"]
+		}
+		rc.run(Case{Desc: fmt.Sprintf("valid profile number %d of 300 distinct ones", i+1), Target: target, Data: f}, true)
+		nMany++
+	}
+	ev.Class("many-distinct-profiles", nMany)
+	phase("many-distinct-profiles")
 	// (a4) the whole v2 textDescription structure by construction: the position of the Unicode and ScriptCode
 	// counts depends on the ASCII count, so a field map with fixed offsets cannot keep two of them hostile at once
 	var nDesc int64
